@@ -9,29 +9,29 @@ import (
 
 // Behaviour scripts a serving peer. The zero value is an honest full seeder.
 type Behaviour struct {
-	Have            []bool `json:"have,omitempty"`             // nil = all pieces
-	CorruptBlocks   []int  `json:"corrupt_blocks,omitempty"`   // ordinal numbers (0-based) of served blocks whose data is corrupted
-	CorruptAll      bool   `json:"corrupt_all,omitempty"`      // every block corrupted
-	ChokeAfter      int    `json:"choke_after,omitempty"`      // after this many served blocks: choke, wait ChokeMs, unchoke (repeats)
-	ChokeMs         int    `json:"choke_ms,omitempty"`         //
-	DisconnectAfter int    `json:"disconnect_after,omitempty"` // close after this many served blocks (0 = never)
-	StallAfter      int    `json:"stall_after,omitempty"`      // after this many served blocks stop answering for StallMs
-	StallMs         int    `json:"stall_ms,omitempty"`
-	NeverUnchoke    bool   `json:"never_unchoke,omitempty"`
-	ShortBlocks     bool   `json:"short_blocks,omitempty"`   // answer with one byte less than requested
-	WrongOffset     bool   `json:"wrong_offset,omitempty"`   // answer with begin+1
-	Unrequested     bool   `json:"unrequested,omitempty"`    // push blocks nobody asked for
-	DuplicateEvery  int    `json:"duplicate_every,omitempty"` // send every k-th block twice
-	AllowedFast     []int  `json:"allowed_fast,omitempty"`   // pieces announced as allowed-fast (fast extension only)
-	RejectWhenChoked bool  `json:"reject_when_choked,omitempty"`
+	Have             []bool `json:"have,omitempty"`             // nil = all pieces
+	CorruptBlocks    []int  `json:"corrupt_blocks,omitempty"`   // ordinal numbers (0-based) of served blocks whose data is corrupted
+	CorruptAll       bool   `json:"corrupt_all,omitempty"`      // every block corrupted
+	ChokeAfter       int    `json:"choke_after,omitempty"`      // after this many served blocks: choke, wait ChokeMs, unchoke (repeats)
+	ChokeMs          int    `json:"choke_ms,omitempty"`         //
+	DisconnectAfter  int    `json:"disconnect_after,omitempty"` // close after this many served blocks (0 = never)
+	StallAfter       int    `json:"stall_after,omitempty"`      // after this many served blocks stop answering for StallMs
+	StallMs          int    `json:"stall_ms,omitempty"`
+	NeverUnchoke     bool   `json:"never_unchoke,omitempty"`
+	ShortBlocks      bool   `json:"short_blocks,omitempty"`    // answer with one byte less than requested
+	WrongOffset      bool   `json:"wrong_offset,omitempty"`    // answer with begin+1
+	Unrequested      bool   `json:"unrequested,omitempty"`     // push blocks nobody asked for
+	DuplicateEvery   int    `json:"duplicate_every,omitempty"` // send every k-th block twice
+	AllowedFast      []int  `json:"allowed_fast,omitempty"`    // pieces announced as allowed-fast (fast extension only)
+	RejectWhenChoked bool   `json:"reject_when_choked,omitempty"`
 	// CloseOnPieceDone: close the connection right after the last data byte of some piece has been sent
 	// (the client then handles the hash result of that piece with the peer already gone).
 	CloseOnPieceDone bool `json:"close_on_piece_done,omitempty"`
 	DelayPerBlockMs  int  `json:"delay_per_block_ms,omitempty"` // honest but slow
 	// MetaMode scripts the answers to ut_metadata requests: "" honest, garbage (right size, wrong bytes), wrong-total,
-	// short-piece, long-piece, dup, unrequested, swap-labels, reject, silent, close.
-	MetaMode string `json:"meta_mode,omitempty"`
-	MetaDelayMs int `json:"meta_delay_ms,omitempty"`
+	// short-piece, long-piece, dup, forge-after, unrequested, swap-labels, reject, silent, close.
+	MetaMode    string `json:"meta_mode,omitempty"`
+	MetaDelayMs int    `json:"meta_delay_ms,omitempty"`
 }
 
 // Honest reports whether the behaviour never sends wrong data.
@@ -49,16 +49,16 @@ type Server struct {
 	Mask []bool // optional: padding mask of F (needed by CloseOnPieceDone to know when a piece is fully supplied)
 	sent map[int]int
 
-	mu          sync.Mutex
-	Served      int // blocks sent
-	Requests    int // requests received
-	Outstanding int // requests received and not answered (while unchoked and not stalled)
-	Unchoked    bool
-	Interested  bool
-	LastRequest time.Time
-	Choked      int // number of choke cycles performed
+	mu           sync.Mutex
+	Served       int // blocks sent
+	Requests     int // requests received
+	Outstanding  int // requests received and not answered (while unchoked and not stalled)
+	Unchoked     bool
+	Interested   bool
+	LastRequest  time.Time
+	Choked       int // number of choke cycles performed
 	MetaRequests int // ut_metadata requests received
-	done        chan struct{}
+	done         chan struct{}
 }
 
 func (s *Server) numPieces() int { return (len(s.F) + s.PL - 1) / s.PL }
@@ -184,6 +184,15 @@ func (s *Server) run() {
 			p.Send(out)
 			if s.B.MetaMode == "dup" {
 				p.Send(out)
+			}
+			if s.B.MetaMode == "forge-after" && len(s.Info) > 16384 && m.Index == 0 {
+				// the genuine first block, then a forged block with the same index and size
+				forged := out
+				forged.Data = append([]byte(nil), out.Data...)
+				for k := range forged.Data {
+					forged.Data[k] ^= byte(0x33 + k)
+				}
+				p.Send(forged)
 			}
 		case "notinterested":
 			s.mu.Lock()
